@@ -520,12 +520,15 @@ var helperAttr = []string{`{{.V}}`, `x{{.V}}y`, `{{if .C}}{{.V}}{{end}}&amp;`}
 // unbalanced helpers: name -> body; they fail when executed on their own (non-text end context) but are valid
 // pieces of the callers below
 // (j0 is script text: on its own it is malformed HTML - "<b)" - and fails analysis for another reason than its end context)
-var unbalancedHelpers = map[string]string{"o0": `<a href="`, "o1": `<div title='`, "o2": `<textarea>`, "o3": `<p><b`, "c0": `">`, "j0": `if (a<b) { f("x") }`}
+var unbalancedHelpers = map[string]string{"o0": `<a href="`, "o1": `<div title='`, "o2": `<textarea>`, "o3": `<p><b`, "c0": `">`, "j0": `if (a<b) { f("x") }`, "q0": `"><a href="/y?q=`}
 var unbalancedCallers = []string{
 	`{{template "o0"}}/x">a</a>`, `{{template "o0"}}{{.U}}">b</a>`, `{{template "o0"}}/x">{{.V}}</a>{{template "o0"}}{{.U}}">`, `{{template "o0"}}/p?q={{.V}}">c</a>`,
 	`{{template "o1"}}{{.V}}'>x</div>`, `{{template "o1"}}static'>{{.V}}</div>`, `{{if .C}}{{template "o1"}}a'>{{else}}<div>{{end}}{{.V}}</div>`,
 	`{{template "o2"}}{{.V}}</textarea>`, `{{template "o2"}}</textarea>{{.V}}`,
 	`{{template "o3"}} title="{{.V}}">x</b></p>`, `{{template "o3"}}>{{.V}}</b></p>`,
+	// q0 closes the attribute and the tag it is called in and opens the same attribute again, with the very text
+	// that one of its call sites has in front of the call
+	`<a href="/y?q={{template "q0"}}{{.V}}">x</a>`, `<a href="{{template "q0"}}{{.V}}">y</a>`, `<a href="/z/{{template "q0"}}{{.V}}">z</a>`,
 	`<script>{{template "j0"}}</script>`, `<script>var x = 1;{{template "j0"}}</script><p>{{.V}}</p>`,
 	`<a href="{{.U}}{{template "c0"}}x</a>`, `<a title="{{.V}}{{template "c0"}}{{.V}}</a>`, `{{template "o0"}}{{.U}}{{template "c0"}}{{.V}}</a>`,
 }
